@@ -338,6 +338,9 @@ def pyeq(ex, st, a, b):
     equality only between int and bool)."""
     eng = ex.eng
     if isinstance(a, (Ref, Const)) or isinstance(b, (Ref, Const)):
+        tt = _type_test(ex, st, a, b)
+        if tt is not None:
+            return tt
         if isinstance(a, Ref) and isinstance(b, Ref):
             return z3.BoolVal(a.oid == b.oid)
         if isinstance(a, Const) and isinstance(b, Const):
@@ -571,7 +574,29 @@ def compare(ex, st, op, a, b):
     yield st, _raise("TypeError", "order")
 
 
+def _type_test(ex, st, a, b):
+    """type(x) is T / type(x) == T for a built-in type T: the EXACT kind of x (bool is not int here); None when the
+    operands are not of that form"""
+    for x, y in ((a, b), (b, a)):
+        if isinstance(x, Const) and x.kind == "typeof":
+            if not (isinstance(y, Const) and y.kind in ("type", "exttype", "typeof", "class")):
+                return None
+            if y.kind != "type" or not isinstance(x.val, V):
+                raise _unsupported("type(x) compared with something that is not a built-in type")
+            v = ex.narrow(st, x.val)
+            name = y.val
+            if name not in ("int", "bool", "str", "bytes", "float", "list", "tuple", "dict", "set"):
+                raise _unsupported(f"type(x) compared with {name}")
+            if v.ty != "py":
+                return z3.BoolVal(v.ty == name)
+            return S.RECOG[name](v.t) if name != "int" else Py.is_int(v.t)
+    return None
+
+
 def is_(ex, st, a, b):
+    tt = _type_test(ex, st, a, b)
+    if tt is not None:
+        return tt
     if isinstance(a, Ref) and isinstance(b, Ref):
         return z3.BoolVal(a.oid == b.oid)
     if isinstance(a, Const) and isinstance(b, Const):
